@@ -133,6 +133,7 @@ func checkC06(p *Prog, r *Report) {
 	c06LexerRewind(p, r)
 	c09IdentifierCompare(p, r, "C06.identifier-compare")
 	tokenBased(p, r, "C06.token-based")
+	boundedRecursion(p, r, "C06.bounded-recursion")
 }
 
 func c06ErrAndSticky(p *Prog, r *Report, famList []*ssa.Function, fam map[*ssa.Function]bool) {
@@ -680,4 +681,144 @@ func c06LexerRewind(p *Prog, r *Report) {
 // isGeneratedLexer: the ragel-generated scanner function (trusted generated component).
 func isGeneratedLexer(fn *ssa.Function) bool {
 	return fn.Name() == "next" && recvNamed(fn) != nil && recvNamed(fn).Obj().Name() == "lexer"
+}
+
+// boundedRecursion: the hand-written parser is recursive descent; its recursion depth is driven
+// by the nesting of the statement text (an attacker chooses it).  Every cycle of the parser's
+// call graph must pass through a call that is made only after a depth guard succeeded, so the
+// depth is bounded by a constant instead of by the goroutine stack (exhausting that stack is a
+// fatal runtime error that takes the whole process down, it cannot be recovered).
+func boundedRecursion(p *Prog, r *Report, rule string) {
+	r.Rule(rule, "every recursive cycle among the parser's functions contains a call that is made only after a depth guard (a lexer method that compares a depth counter with a constant limit and increments it) returned without error: the recursion depth is bounded by that constant, not by the nesting of the input")
+	fns := p.ScopedFuncs("parser")
+	inScope := map[*ssa.Function]bool{}
+	for _, f := range fns {
+		if f.Parent() == nil && !isGeneratedLexer(f) {
+			inScope[f] = true
+		}
+	}
+	// depth guards: methods of the lexer with `field >= const` and `field = field + 1`
+	guards := map[*ssa.Function]bool{}
+	for f := range inScope {
+		if f.Signature.Recv() == nil || f.Signature.Results().Len() != 1 {
+			continue
+		}
+		cmp, inc := false, false
+		eachInstr(f, func(in ssa.Instruction) {
+			switch x := in.(type) {
+			case *ssa.BinOp:
+				if x.Op == token.GEQ || x.Op == token.GTR || x.Op == token.LSS || x.Op == token.LEQ {
+					lf, _ := loadedField(x.X)
+					_, isC := x.Y.(*ssa.Const)
+					if lf != nil && isC {
+						cmp = true
+					}
+				}
+			case *ssa.Store:
+				if fa, ok := x.Addr.(*ssa.FieldAddr); ok {
+					if bo, ok := x.Val.(*ssa.BinOp); ok && bo.Op == token.ADD {
+						if lf, _ := loadedField(bo.X); lf == fieldOfAddr(fa) {
+							inc = true
+						}
+					}
+				}
+			}
+		})
+		if cmp && inc {
+			guards[f] = true
+		}
+	}
+	// an edge f -> g is guarded when the call is dominated by `guard() == nil`
+	guardedCall := func(c ssa.CallInstruction) bool {
+		for _, ct := range dominatingConds(c.Block()) {
+			bo, ok := ct.Cond.(*ssa.BinOp)
+			if !ok || (bo.Op != token.NEQ && bo.Op != token.EQL) {
+				continue
+			}
+			isNil := func(v ssa.Value) bool { k, ok := v.(*ssa.Const); return ok && k.Value == nil }
+			var other ssa.Value
+			switch {
+			case isNil(bo.Y):
+				other = bo.X
+			case isNil(bo.X):
+				other = bo.Y
+			default:
+				continue
+			}
+			if (bo.Op == token.EQL) != ct.Truth { // need: err == nil holds
+				continue
+			}
+			for _, o := range origins(other) {
+				if call, ok := o.(*ssa.Call); ok && call.Call.StaticCallee() != nil && guards[call.Call.StaticCallee()] {
+					return true
+				}
+			}
+		}
+		return false
+	}
+	adj := map[*ssa.Function][]*ssa.Function{}
+	nEdges, nGuarded := 0, 0
+	for f := range inScope {
+		eachCall(f, func(c ssa.CallInstruction) {
+			g := c.Common().StaticCallee()
+			if g == nil || !inScope[g] {
+				return
+			}
+			nEdges++
+			if guardedCall(c) {
+				nGuarded++
+				return
+			}
+			adj[f] = append(adj[f], g)
+		})
+	}
+	// cycles among unguarded edges
+	color := map[*ssa.Function]int{}
+	var stack []*ssa.Function
+	var cycles []string
+	var dfs func(f *ssa.Function)
+	dfs = func(f *ssa.Function) {
+		color[f] = 1
+		stack = append(stack, f)
+		for _, g := range adj[f] {
+			switch color[g] {
+			case 0:
+				dfs(g)
+			case 1:
+				var names []string
+				on := false
+				for _, s := range stack {
+					if s == g {
+						on = true
+					}
+					if on {
+						names = append(names, s.Name())
+					}
+				}
+				names = append(names, g.Name())
+				cycles = append(cycles, strings.Join(names, " -> "))
+			}
+		}
+		stack = stack[:len(stack)-1]
+		color[f] = 2
+	}
+	var order []*ssa.Function
+	for f := range inScope {
+		order = append(order, f)
+	}
+	sort.Slice(order, func(i, j int) bool { return order[i].Name() < order[j].Name() })
+	for _, f := range order {
+		if color[f] == 0 {
+			dfs(f)
+		}
+	}
+	sort.Strings(cycles)
+	if len(cycles) > 4 {
+		cycles = append(cycles[:4], fmt.Sprintf("... and %d more", len(cycles)-4))
+	}
+	detail := ""
+	if len(cycles) > 0 {
+		detail = "recursion whose depth only the input bounds (a statement nested a few million levels deep overflows the goroutine stack, which terminates the process): " + strings.Join(cycles, " ; ")
+	}
+	r.check(len(cycles) == 0, rule, "parser call graph", "", fmt.Sprintf("%d functions, %d calls among them, %d behind a depth guard, %d guard function(s)", len(inScope), nEdges, nGuarded, len(guards)), detail)
 }
